@@ -41,6 +41,7 @@ struct Shared {
     CScript wscript, wsh;
     std::deque<SimCoin> wsh_coins;      // confirmed P2WSH(wscript) coins
     bool haspar{false};
+    bool two_parents{false};            // third universe (TxDownloadOrphan.tla): two missing parents, orphan reconsideration as separate turns
     std::set<std::string> kinds;
 
     Shared()
@@ -100,13 +101,13 @@ struct Shared {
     }
 
     // input 0 of m spends a P2WSH(wscript) output: witness <sig> <filler> <wscript>
-    void SignWsh(CMutableTransaction& m, const CTxOut& spent, size_t filler_len)
+    void SignWsh(CMutableTransaction& m, const CTxOut& spent, size_t filler_len, unsigned int in = 0)
     {
-        const uint256 h = SignatureHash(wscript, m, 0, SIGHASH_ALL, spent.nValue, SigVersion::WITNESS_V0);
+        const uint256 h = SignatureHash(wscript, m, in, SIGHASH_ALL, spent.nValue, SigVersion::WITNESS_V0);
         std::vector<unsigned char> sig;
         if (!sim->key.Sign(h, sig)) throw std::runtime_error("sign failed");
         sig.push_back((unsigned char)SIGHASH_ALL);
-        m.vin[0].scriptWitness.stack = {sig, std::vector<unsigned char>(filler_len, 0x42), std::vector<unsigned char>(wscript.begin(), wscript.end())};
+        m.vin[in].scriptWitness.stack = {sig, std::vector<unsigned char>(filler_len, 0x42), std::vector<unsigned char>(wscript.begin(), wscript.end())};
     }
 };
 
@@ -144,6 +145,7 @@ struct World {
         dm->ConnectedPeer(1, node::TxDownloadConnectionInfo{/*m_preferred=*/true, /*m_relay_permissions=*/false, /*m_wtxid_relay=*/true});
         dm->ConnectedPeer(2, node::TxDownloadConnectionInfo{/*m_preferred=*/false, /*m_relay_permissions=*/false, /*m_wtxid_relay=*/true});
         S.Advance(std::chrono::seconds{1});
+        if (sh.two_parents) { BuildTwoParents(); sh.fwd->Set(dm.get()); return; }
         SimCoin in;
         if (sh.haspar) {
             sh.NeedCoins();
@@ -173,12 +175,51 @@ struct World {
             throw std::runtime_error("universe: the copies do not share the txid / differ in wtxid");
         sh.fwd->Set(dm.get());
     }
+    // P1, P2: unconfirmed parents with one P2WSH output each; G spends both; Vlo / Vhi: G with a corrupted signature and a junk witness
+    // element ground until the wtxid is lower / higher than G's (the orphanage walks the spenders of an outpoint in wtxid order)
+    void BuildTwoParents()
+    {
+        SimCoin ins[2];
+        for (int i = 0; i < 2; ++i) {
+            sh.NeedCoins();
+            const SimCoin c = S.TakeCoin();
+            CMutableTransaction par; par.version = 2;
+            par.vin.emplace_back(c.op, CScript(), MAX_BIP125_RBF_SEQUENCE);
+            par.vout.emplace_back(c.out.nValue - 20000, sh.wsh);
+            S.SignWpkh(par, 0, c.out);
+            const std::string nme = i == 0 ? "P1" : "P2";
+            tx[nme] = MakeTransactionRef(par);
+            hash[nme + "W"] = tx[nme]->GetWitnessHash().ToUint256();
+            ins[i] = NetSim::OutputOf(par, 0);
+        }
+        // (a genuine wtxid at the very edge of the range would make one of the two orders unreachable: vary the fee by a satoshi then)
+        for (int attempt = 0; attempt < 50 && (!tx.count("Vlo") || !tx.count("Vhi")); ++attempt) {
+            tx.erase("Vlo"); tx.erase("Vhi");
+            CMutableTransaction g; g.version = 2;
+            for (int i = 0; i < 2; ++i) g.vin.emplace_back(ins[i].op, CScript(), MAX_BIP125_RBF_SEQUENCE);
+            g.vout.emplace_back(ins[0].out.nValue + ins[1].out.nValue - 30000 - attempt, S.wpkh);
+            for (unsigned int i = 0; i < 2; ++i) sh.SignWsh(g, ins[i].out, 1, i);
+            tx["G"] = MakeTransactionRef(g);
+            hash["W"] = tx["G"]->GetWitnessHash().ToUint256();
+            const Wtxid w = tx["G"]->GetWitnessHash();
+            for (unsigned int junk = 0; junk < 512 && (!tx.count("Vlo") || !tx.count("Vhi")); ++junk) {
+                CMutableTransaction c(g);
+                c.vin[0].scriptWitness.stack[0][10] ^= 0x01;                                                          // invalid signature
+                c.vin[1].scriptWitness.stack[1] = {(unsigned char)(junk & 0xff), (unsigned char)(junk >> 8)};          // third-party malleable junk
+                const CTransactionRef r = MakeTransactionRef(c);
+                if (r->GetHash() != tx["G"]->GetHash()) throw std::runtime_error("copy changed the txid");
+                const std::string nme = r->GetWitnessHash() < w ? "Vlo" : "Vhi";
+                if (!tx.count(nme)) { tx[nme] = r; hash[nme == "Vlo" ? "Wlo" : "Whi"] = r->GetWitnessHash().ToUint256(); }
+            }
+        }
+        if (!tx.count("Vlo") || !tx.count("Vhi")) throw std::runtime_error("could not realise both wtxid orders");
+    }
     ~World()
     {
         sh.fwd->Set(nullptr);
         // keep the shared node's mempool small (its consistency check runs on every acceptance and walks the whole pool)
         LOCK2(cs_main, S.pool().cs);
-        for (const char* nme : {"Par", "G"}) if (tx.count(nme)) S.pool().removeRecursive(*tx.at(nme), MemPoolRemovalReason::EXPIRY);
+        for (const char* nme : {"Par", "P1", "P2", "G"}) if (tx.count(nme)) S.pool().removeRecursive(*tx.at(nme), MemPoolRemovalReason::EXPIRY);
     }
 
     GenTxid Gtx(const std::string& h) const
@@ -244,8 +285,22 @@ struct World {
             } else if (package) {
                 verdict = "package";
             }
-            Drain();
+            if (!sh.two_parents) Drain();         // (third universe: orphans are reconsidered only in the "turn" action)
             res.pushKV("validated", should_validate); res.pushKV("verdict", verdict);
+        } else if (op == "turn") {
+            // PeerManagerImpl::ProcessOrphanTx for peer p
+            const NodeId p = a[1].getInt<int>();
+            UniValue done(UniValue::VARR);
+            LOCK(cs_main);
+            while (CTransactionRef o = dm->GetTxToReconsider(p)) {
+                const MempoolAcceptResult r = S.cm().ProcessTransaction(o);
+                std::string nme = "?";
+                for (const auto& [k, t] : tx) if (t->GetWitnessHash() == o->GetWitnessHash()) nme = k;
+                UniValue e(UniValue::VARR); e.push_back(nme); e.push_back(VerdictClass(r)); done.push_back(e);
+                if (r.m_result_type == MempoolAcceptResult::ResultType::VALID) { dm->MempoolAcceptedTx(o); break; }
+                if (r.m_state.GetResult() != TxValidationResult::TX_MISSING_INPUTS) { dm->MempoolRejectedTx(o, r.m_state, p, /*first_time_failure=*/false); break; }
+            }
+            res.pushKV("done", done);
         } else if (op == "block") {
             const std::string kind = a[1].get_str();
             auto sp = S.OnTip();
@@ -268,6 +323,19 @@ struct World {
 
     UniValue Project()
     {
+        if (sh.two_parents) {
+            UniValue o(UniValue::VOBJ), pool(UniValue::VARR), orph(UniValue::VARR), rej(UniValue::VARR), hw(UniValue::VOBJ);
+            for (const auto& [nme, t] : tx) {
+                if (S.pool().exists(t->GetWitnessHash())) pool.push_back(nme);
+                if (dm->m_orphanage->HaveTx(t->GetWitnessHash())) orph.push_back(nme);
+            }
+            for (const auto& [h, u] : hash) if (dm->m_lazy_recent_rejects && dm->m_lazy_recent_rejects->contains(u)) rej.push_back(h);
+            hw.pushKV("p1", dm->HaveMoreWork(1)); hw.pushKV("p2", dm->HaveMoreWork(2));
+            o.pushKV("pool", pool); o.pushKV("orph", orph); o.pushKV("rej", rej); o.pushKV("hw", hw);
+            o.pushKV("ahW", dm->AlreadyHaveTx(Wtxid::FromUint256(hash.at("W")), /*include_reconsiderable=*/true));
+            dm->m_orphanage->SanityCheck();
+            return o;
+        }
         UniValue o(UniValue::VOBJ);
         UniValue pool(UniValue::VARR), orph(UniValue::VARR);
         for (const auto& [nme, t] : tx) {
@@ -325,6 +393,7 @@ int main(int argc, char** argv)
     InstallAbortHandlers();
     Shared sh;
     sh.haspar = std::string(argv[3]) == "1";
+    sh.two_parents = std::string(argv[3]) == "2";
     ForEachLine(argv[2], [&](size_t tn, const UniValue& t) {
         R().cur_test = tn; R().cur_step = 0; R().cur_action = UniValue::VNULL;
         std::string why;
